@@ -543,6 +543,7 @@ theorem act_good (env : Env P N V) (ps0 : List (Param V)) (htt : env.tgt ≠ env
     simp only [act, factoryReset, writeInit]
     apply writeInitLoop_good env ps0 htt hc
     exact ⟨h.disk, h.shape⟩
+  | seterr n => exact h
 
 /-! ### start-up -/
 
@@ -837,6 +838,7 @@ theorem act_within (env : Env P N V) (H : String → V → Prop) (ms : MState N 
   | factoryReset =>
     simp only [act, factoryReset]
     exact writeInit_within env H _ f hnames hlaw ⟨h.cur, h.stored⟩
+  | seterr n => exact h.mono (fun _ _ hh => Or.inl hh)
 
 theorem act_names (env : Env P N V) (ms : MState N V) (file : Option Bytes) (a : Act V) (f : Option Fault) :
     (act env ms file a f).ms.params.map (·.name) = ms.params.map (·.name) := by
@@ -852,6 +854,7 @@ theorem act_names (env : Env P N V) (ms : MState N V) (file : Option Bytes) (a :
   | factoryReset =>
     simp only [act, factoryReset, writeInit]
     rw [writeInitLoop_names]
+  | seterr n => rfl
 
 /-- `n` has had the value `v` at the start of `hist` or after one of its actions -/
 def Visited (env : Env P N V) (w : World P N V) (hist : List (Act V × Option Fault)) (n : String) (v : V) : Prop :=
@@ -898,6 +901,96 @@ theorem world_run_within (env : Env P N V) (ps0 : List (Param V)) (htt : env.tgt
 
 end provenance
 
+/-! ## the registration of the automatic save (`paramCallbacks`) -/
+section hooks
+variable {P N V : Type} [DecidableEq P]
+
+theorem saveParameters_hooks (env : Env P N V) (ms : MState N V) (f : Option Fault) :
+    (saveParameters env ms f).ms.hooks = ms.hooks := by
+  unfold saveParameters; split <;> simp [doSave]
+
+/-- `announceUpdate` swallows the exception of a callback and leaves it registered -/
+theorem announce_hooks (env : Env P N V) (ms : MState N V) (n : String) (v : V) (f : Option Fault) :
+    (announce env ms n v f).ms.hooks = ms.hooks := by
+  unfold announce
+  cases findParam ms.params n with
+  | none => rfl
+  | some p =>
+    simp only
+    split
+    · exact saveParameters_hooks env _ f
+    · rfl
+
+theorem wiStep_hooks (env : Env P N V) (ms : MState N V) (k : String) (v : V) (f : Option Fault) :
+    (wiStep env ms k v f).ms.hooks = ms.hooks := by
+  unfold wiStep
+  simp only
+  split
+  · rw [announce_hooks]
+  · rfl
+
+theorem writeInitLoop_hooks (env : Env P N V) :
+    ∀ (ks : List String) (ms : MState N V) (f : Option Fault), (writeInitLoop env ks ms f).ms.hooks = ms.hooks := by
+  intro ks
+  induction ks with
+  | nil => intro ms f; simp [writeInitLoop]
+  | cons k ks ih =>
+    intro ms f
+    cases hl : ms.writeDict.lookup k with
+    | none => rw [writeInitLoop_none env k ks ms f hl]; exact ih ms f
+    | some v => rw [(writeInitLoop_some env k ks ms f v hl).1, ih, wiStep_hooks]
+
+theorem applyLoaded_hooks (ms : MState N V) (l : List (String × V)) : (applyLoaded ms l).hooks = ms.hooks := by
+  induction l generalizing ms with
+  | nil => rfl
+  | cons e rest ih =>
+    obtain ⟨k, w⟩ := e
+    unfold applyLoaded
+    exact ih _
+
+/-- no action of the module machine changes what is registered -/
+theorem act_hooks (env : Env P N V) (ms : MState N V) (file : Option Bytes) (a : Act V) (f : Option Fault) :
+    (act env ms file a f).ms.hooks = ms.hooks := by
+  cases a with
+  | set n v => exact announce_hooks env ms n v f
+  | save => exact saveParameters_hooks env ms f
+  | writeInit => exact writeInitLoop_hooks env _ ms f
+  | load =>
+    simp only [act, loadParameters, writeInit]
+    rw [writeInitLoop_hooks, applyLoaded_hooks]
+  | factoryReset =>
+    simp only [act, factoryReset, writeInit]
+    rw [writeInitLoop_hooks]
+  | seterr n => rfl
+
+theorem world_run_hooks (env : Env P N V) : ∀ (hist : List (Act V × Option Fault)) (w : World P N V),
+    (World.run env w hist).ms.hooks = w.ms.hooks := by
+  intro hist
+  induction hist with
+  | nil => intro w; rfl
+  | cons a rest ih =>
+    intro w
+    rw [world_run_cons, ih]
+    exact act_hooks env w.ms _ a.1 a.2
+
+theorem startUp_hooks (env : Env P N V) (ps : List (Param V)) (wd0 : List (String × V)) (file : Option Bytes)
+    (f : Option Fault) : (startUp env ps wd0 file f).ms.hooks = autoNames ps := by
+  simp [startUp, doSave]
+
+theorem mem_autoNames {ps : List (Param V)} {p : Param V} (hp : p ∈ ps) (hpers : p.persistent = true)
+    (hauto : p.auto = true) : (autoNames ps).contains p.name = true := by
+  simp only [autoNames, List.contains_iff_mem, List.mem_map, List.mem_filter]
+  exact ⟨p, ⟨hp, by simp [hpers, hauto]⟩, rfl⟩
+
+theorem findParam_isSome {V : Type} (ps : List (Param V)) (n : String) (h : n ∈ ps.map (·.name)) :
+    (findParam ps n).isSome = true := by
+  unfold findParam
+  rw [List.find?_isSome]
+  obtain ⟨p, hp, rfl⟩ := List.mem_map.mp h
+  exact ⟨p, hp, by simp⟩
+
+end hooks
+
 /-! ## a concrete environment for the non-vacuity examples of `Props/C17`
 
 One persistent parameter "a" (with a write method that refuses values above 100) and a plain parameter "b"; numbers
@@ -923,6 +1016,19 @@ def exParams : List (Param Nat) := [⟨"a", true, false, true, true, true, 5⟩,
 theorem exCodec : Codec exEnv exParams := by
   intro ps' h
   unfold SameShape exParams at h
+  have hlen : ps'.length = 2 := by simpa using congrArg List.length h
+  match ps', hlen, h with
+  | [x, y], _, h =>
+    simp only [List.map_cons, List.map_nil, List.cons.injEq, Prod.mk.injEq, and_true] at h
+    obtain ⟨⟨hx1, hx2⟩, hy1, hy2⟩ := h
+    simp [exportAll, List.filter_cons, hx2, hy2, hx1, exEnv]
+
+/-- the same class with "a" saved automatically (`persistent='auto'`), not configured, without write method -/
+def exAuto : List (Param Nat) := [⟨"a", true, true, false, false, false, 5⟩, ⟨"b", false, false, false, false, false, 7⟩]
+
+theorem exAutoCodec : Codec exEnv exAuto := by
+  intro ps' h
+  unfold SameShape exAuto at h
   have hlen : ps'.length = 2 := by simpa using congrArg List.length h
   match ps', hlen, h with
   | [x, y], _, h =>
